@@ -238,6 +238,15 @@ pub struct AllocStats {
     pub total: u64,
 }
 
+/// The reference server runs inside the client's own read/write calls, on the same thread: its allocations
+/// must not be charged to the code under test. `suspended(|| ...)` switches the monitor off for the closure.
+pub fn suspended<T>(f: impl FnOnce() -> T) -> T {
+    let was = ARMED.with(|a| a.replace(false));
+    let r = f();
+    ARMED.with(|a| a.set(was));
+    r
+}
+
 pub fn arm_alloc() {
     A_COUNT.with(|c| c.set(0));
     A_MAXREQ.with(|c| c.set(0));
